@@ -248,7 +248,7 @@ class Nonzero(Family):
     """nonzero: the (row, column) coordinates of the non-zero cells in row-major (= flat) order"""
     name = "RaggedArray.nonzero"
     qualname = "npstructures.raggedarray:RaggedArray.nonzero"
-    serves = ["C08", "C19"]
+    serves = ["C08", "C19", "C05", "C11"]      # C05: _arg_extremum, C11: _get_indices use this contract
     assumed = ["numpy.flatnonzero contract", "numpy.searchsorted on the sorted row starts"]
 
     def extra_functions(self):
